@@ -619,6 +619,16 @@ WORKFLOW = [
     {'Top': lambda db: [(x, len([1 for (x2, y) in db['Q'] if x2 == x])) for x in {x for (x, y) in db['Q']}],
      'G2': lambda db: [(x,) for x in {x for (x, y) in db['Q']}]},
     tags=('C14', 'C17'), workflow=True, together=True, cap={'quick': 25, 'thorough': 200}),
+  # three requested predicates, two of which are grounded intermediates of the third one's plan
+  S('wf_requested_intermediates', '@Ground(Ga);\n@Ground(Gb);\n@Ground(Gc);\nGa(x) :- A(x), x > 0;\nGb(x + 1) :- A(x);\n'
+    'Gc(x * 3) :- A(x);\nTop(x) :- Ga(x), Gb(x);\nAll3(x, y) :- Ga(x), Gb(y), Gc(x + y);', {'A': 1},
+    {'Ga': lambda db: [(x,) for (x,) in db['A'] if x > 0],
+     'Gb': lambda db: [(x + 1,) for (x,) in db['A']],
+     'Gc': lambda db: [(x * 3,) for (x,) in db['A']],
+     'Top': lambda db: [(x,) for (x,) in db['A'] if x > 0 for (y,) in db['A'] if y + 1 == x],
+     'All3': lambda db: [(x, y + 1) for (x,) in db['A'] if x > 0 for (y,) in db['A'] for (z,) in db['A']
+                         if z * 3 == x + y + 1]},
+    tags=('C14', 'C17'), workflow=True, together=True),
 ]
 
 import json as _json
